@@ -41,6 +41,13 @@ end
 /-- the managed CIF as the documented data model: data blocks, each with everything reachable from it -/
 def abs (d : Db) : Cif := d.blocks.map (fun b => absContainer d (d.frames.length + 1) b.cid b.nameOrig)
 
+/-- "stored row numbers of a loop never exceed its last_row_num", for every loop, as a Boolean: the model driver evaluates it on
+    every state it reaches and prints a violation into the model's observation (so it becomes a model/implementation
+    disagreement); `Lemmas/StoreRefine.rowsBelowB_sound` ties it to the hypothesis `RowsBelow` of `C04_refines_add_packet` -/
+def Db.rowsBelowB (d : Db) : Bool :=
+  d.loops.all (fun r => d.values.all (fun v =>
+    !(v.cid == r.cid && (d.loopItems r.cid r.loopNum).any (fun i => i.name == v.name)) || decide (v.rowNum ≤ r.lastRowNum)))
+
 -- ---- histories -------------------------------------------------------------------------------------------------------
 
 inductive Op where
